@@ -42,7 +42,10 @@ def gen_history(rng):
             e = rng.choice(live)
             th = rng.below(4)
             c = rng.below(8)
-            if c <= 1:
+            if rng.chance(1, 5):
+                # user type conversions: registered per engine; every engine has the functions, few have the conversion
+                ops.append("%s %d %s %d" % (rng.choice(["conv", "useconv", "useconv"]), th, e, rng.below(3)))
+            elif c <= 1:
                 ops.append("setl %d %s %s %d" % (th, e, rng.choice(names_l), rng.range(1, 99)))
             elif c <= 3:
                 ops.append("getl %d %s %s" % (th, e, rng.choice(names_l)))
